@@ -5,6 +5,8 @@ package req
 import (
 	"bufio"
 	"bytes"
+	"compress/flate"
+	"compress/gzip"
 	"crypto/tls"
 	"io"
 	"math/rand"
@@ -20,7 +22,9 @@ import (
 	"time"
 	"unsafe"
 
+	"github.com/andybalholm/brotli"
 	"github.com/imroc/req/v3/internal/http3"
+	"github.com/klauspost/compress/zstd"
 	"github.com/quic-go/quic-go"
 	qhttp3 "github.com/quic-go/quic-go/http3"
 	xhttp2 "golang.org/x/net/http2"
@@ -205,6 +209,11 @@ func (o *c17Origin) handler(w http.ResponseWriter, r *http.Request) {
 		b := o.dl[r.URL.Query().Get("id")]
 		chunked := r.URL.Query().Get("chunked") == "1"
 		o.mu.Unlock()
+		if enc := r.URL.Query().Get("enc"); enc != "" {
+			// the body goes out compressed: what is on the wire is c17Encode(enc, b)
+			b = c17Encode(enc, b)
+			w.Header().Set("Content-Encoding", enc)
+		}
 		if chunked {
 			fl, _ := w.(http.Flusher)
 			for len(b) > 0 {
@@ -257,6 +266,27 @@ func (o *c17Origin) handler(w http.ResponseWriter, r *http.Request) {
 		TE: append([]string(nil), r.TransferEncoding...), Body: body, BodyErr: err})
 	o.mu.Unlock()
 	w.WriteHeader(status)
+}
+
+// c17Encode compresses b with a Content-Encoding the client can undo.
+func c17Encode(enc string, b []byte) []byte {
+	var buf bytes.Buffer
+	var w io.WriteCloser
+	switch enc {
+	case "gzip":
+		w = gzip.NewWriter(&buf)
+	case "deflate":
+		w, _ = flate.NewWriter(&buf, flate.DefaultCompression)
+	case "br":
+		w = brotli.NewWriter(&buf)
+	case "zstd":
+		w, _ = zstd.NewWriter(&buf)
+	default:
+		return b
+	}
+	w.Write(b)
+	w.Close()
+	return buf.Bytes()
 }
 
 func c17Itoa64(n int64) string {
